@@ -45,6 +45,9 @@ def build(i, check):
     if kind == "wait-optional-in-oneof":
         # the interesting runs are those in which the option's hard source is there long before the optional one
         oa, ob = rng.choice(["success", "success", "success", "error", "crash"]), rng.choice(["success", "success", "success", "error"])
+    multi = kind == "oneof" and i % 24 in (3, 11)  # every third one-of program: an option that needs both sources (see below)
+    if multi:
+        oa, ob = "success", rng.choice(["success", "success", "success", "error"])
     where = rng.choice(["top", "map", "list", "several"])
     consumer_kind = rng.choice(["step-input", "workflow-output", "both"])
     A, B = src_step("A", oa), src_step("B", ob)
@@ -90,6 +93,13 @@ def build(i, check):
     elif kind == "oneof":
         na, nb = rng.choice([("a", "b"), ("v1.0", "v2.0"), ("opt.a", "b"), ("A-1", "B_2")])
         t = OneOf("which", {na: Expr(Ref("A", "outputs", "success")), nb: Expr(Ref("B", "outputs", "success"))})
+        if multi:
+            # an option written as a structure that needs A (referred to several times) and, only inside an expression that starts with A, B; the other option needs A's error
+            from ..model import Bin
+            A.fields["input"]["n"] = 2
+            B.fields["input"]["n"] = 5
+            t = OneOf("which", {"both": {"first": Expr(Ref("A", "outputs", "success", "tag")), "sum": Expr(Bin("+", Bin("+", Ref("A", "outputs", "success", "n"), Ref("A", "outputs", "success", "n")), Ref("B", "outputs", "success", "n"))), "l": [Expr(Ref("A", "outputs", "success", "tag")), Expr(Ref("A", "outputs", "success", "tag"))]},
+                                "neither": Expr(Ref("A", "outputs", "error"))})
     elif kind == "ordisabled":
         t = OrDisabled(Ref("A", "outputs", "success"))
     elif kind == "wait-optional-in-oneof":
@@ -100,6 +110,9 @@ def build(i, check):
         t = {"w": Opt(Ref("A", "outputs", "success", "tag"), True), "s": Opt(Ref("B", "outputs", "success", "tag"), False),
              "o": OneOf("which", {"a": Expr(Ref("A", "outputs", "success")), "d": Expr(Ref("A", "disabled", "output"))})}
     value = place(t, where, rng)
+    if where == "list" and isinstance(t, Opt) and t.node.path and t.node.path[-1] in ("tag", "message", "reason") and rng.random() < 0.7:
+        # a list of objects whose first item has the optional member where the following ones have a plain value
+        value = {"l": [{"e": t, "k": "c"}, {"e": "plain", "k": "c"}, {"e": "plain2", "k": "d"}]}
     outs = {}
     if consumer_kind in ("step-input", "both"):
         C = gen.plugin_step("C", Expr(In("tag")), extra_input={"a": value})
@@ -113,6 +126,8 @@ def build(i, check):
         scripts[gname]["deploys"] = [{}, {"delay_ms": rng.choice([15, 30])}]
     # both completion orders: hold A (or B) until the other finished
     order = rng.choice(["free", "A-last", "B-last"] if kind != "wait-optional-in-oneof" else ["free", "A-last", "A-last", "A-last", "B-last"])
+    if multi:
+        order = rng.choice(["B-last", "B-last", "free"])
     if order == "A-last" and oa not in NO_EXEC + ("hang",) and ob not in NO_EXEC:
         scripts["A"].setdefault("exec", {"outcome": oa})["gate"] = "gA"
         triggers.append({"kind": "exec-end", "src": "B", "nth": 1, "action": "open:gA"})
